@@ -120,6 +120,8 @@ func (p *packet) unmarshal(doChecksum bool, raw []byte) error { //nolint:cyclop
 			dataChunk = &chunkCookieAck{}
 		case ctHeartbeat:
 			dataChunk = &chunkHeartbeat{}
+		case ctHeartbeatAck:
+			dataChunk = &chunkHeartbeatAck{}
 		case ctPayloadData:
 			dataChunk = &chunkPayloadData{}
 		case ctIData:
